@@ -38,7 +38,17 @@ def first_coq_error(out):
 def build(ctx, mod):
     pid = ctx.pid
     with core.BuildLock():
-        regen(getattr(mod, 'GEN', []), ctx)
+        # every translator runs on every check: the extracted driver links all model files, so a check must not depend on
+        # what an earlier command left in Gen/ (the property's own GEN list names the translators its theorems rest on)
+        all_gens = sorted(f[:-3] for f in os.listdir(os.path.join(core.ROOT, 'harness', 'gen')) if f.endswith('.py') and not f.startswith('_'))
+        own = list(getattr(mod, 'GEN', []))
+        regen(own, ctx)
+        # the others feed model files this property's theorems do not rest on: a translator that cannot read the current source
+        # there is noted, not held against this property (the stale Gen file, if any, keeps the driver linkable)
+        scratch = core.Ctx(pid, ctx.tier, ctx.seed)
+        regen([g for g in all_gens if g not in own], scratch)
+        for f in scratch.proof_failures:
+            ctx.notes.append('not counted: ' + f)
         for b in core.scan_sources():
             ctx.proof_failures.append('forbidden construct: ' + b)
         ok, out = core.coq_make(['theories/Extract/Driver.vo'])
